@@ -45,6 +45,8 @@ Lemma ob_goos_not_windows : goos_windows = false.
 Proof. vm_compute. reflexivity. Qed.
 Lemma ob_code_net_timeout : code_net_timeout = 504.
 Proof. vm_compute. reflexivity. Qed.
+Lemma ob_code_timeout : code_timeout = 504.
+Proof. vm_compute. reflexivity. Qed.
 Lemma ob_code_net_other : code_net_other = 502.
 Proof. vm_compute. reflexivity. Qed.
 Lemma ob_code_tls_record : code_tls_record = 502.
